@@ -254,7 +254,7 @@ func genWorld(r *proto.Rand, rich bool) *sWorld {
 	for i := 0; i < 1+r.Intn(2); i++ {
 		leafB.fields = append(leafB.fields, intField())
 	}
-	if rich && r.Bool() {
+	if rich && r.Intn(4) > 0 {
 		leafB.fields = append(leafB.fields, sField{name: fname(), prim: "func() int"})
 	}
 	l1 := newT()
@@ -277,19 +277,19 @@ func genWorld(r *proto.Rand, rich bool) *sWorld {
 		if r.Bool() {
 			fs = append(fs, intField())
 		}
-		if rich && r.Bool() {
+		if rich && r.Intn(4) > 0 {
 			fs = append(fs, structField([]*sType{leafB, l1}[r.Intn(2)], false, true))
 		}
 		l2.fields = shuffle(fs)
 	}
 	w.top = l2
-	if r.Bool() {
+	if r.Bool() || (rich && r.Bool()) {
 		l3 := newT()
 		fs := []sField{structField(l2, r.Intn(3) > 0, false), intField()}
-		if r.Intn(3) == 0 {
+		if r.Intn(3) == 0 || rich {
 			fs = append(fs, structField(leafB, false, false))
 		}
-		if rich && r.Bool() {
+		if rich && r.Intn(4) > 0 {
 			// an embedded pointer to a type that is embedded nowhere else
 			leafC := newT()
 			leafC.fields = []sField{intField(), intField()}
@@ -1090,7 +1090,11 @@ func (g *sGen) snippet() *sStmt {
 	if !w.rich {
 		kinds = 14
 	}
-	switch k := r.Intn(kinds); k {
+	k := r.Intn(kinds)
+	if w.rich && r.Intn(3) == 0 {
+		k = 14 + r.Intn(2) // the roles only a rich world has
+	}
+	switch k {
 	case 0: // pointer to a struct
 		s.role = "pointer"
 		q := "q" + sfx
@@ -1102,7 +1106,12 @@ func (g *sGen) snippet() *sStmt {
 		p := "p" + sfx
 		s.raw = []string{p + " := &o" + ci.text(), incDeref(p), x + " := o" + cpre.text()}
 		dump(x, cpre.res())
-		dump("*"+p, ci.res())
+		if g.avoid["structrole.field-pointer-whole-assign"] {
+			// (a pointer to a field goes stale when the struct variable is assigned as a whole later)
+			s.raw = append(s.raw, w.dumpLines("*"+p, ci.res())...)
+		} else {
+			dump("*"+p, ci.res())
+		}
 		if cs, ok := pickChain(all, valStruct); ok {
 			inner := chainsOf(cs.res().st, 2, false)
 			if c, ok := pickChain(inner, numeric); ok {
